@@ -658,6 +658,10 @@ class P(Prop):
                 "diff": [float(v) for v in m["diff"]], "ex": [float(v) for v in m["ex"]], "ey": [float(v) for v in m["ey"]]}
 
     def impl(self, case):
+        if case.get("_warm"):
+            # a session built by warmups(): it must fail by itself, so the module starts from its import-time state
+            import importlib
+            importlib.reload(self.C)
         C = self.C
         if case["kind"] == "seq":
             return self.impl_seq(case)
@@ -846,6 +850,13 @@ class P(Prop):
                 yield dict(case, steps=[dict(st, a=ren(st["a"]), b=ren(st["b"])) for i, st in enumerate(steps) if i != k])
         if any(q != "none" for q in case["pre"]):
             yield dict(case, pre=["none"] * nt)
+        # drop a track no call refers to (later tracks renumbered)
+        for i in range(nt - 1, -1, -1):
+            if not any(r == "t%d" % i for st in steps for r in (st["a"], st["b"])):
+                def rent(r, i=i):
+                    return "t%d" % (int(r[1:]) - 1) if r[0] == "t" and int(r[1:]) > i else r
+                yield dict(case, tracks=case["tracks"][:i] + case["tracks"][i + 1:], pre=case["pre"][:i] + case["pre"][i + 1:],
+                           steps=[dict(st, a=rent(st["a"]), b=rent(st["b"])) for st in steps])
         # plainer calls
         for k, st in enumerate(steps):
             plain = dict(st, mf="const", df="int", vb="F", st="kw")
@@ -873,7 +884,48 @@ class P(Prop):
                         t2[k][c] = 0.0 if abs(t[k][c]) <= 1 else float(int(t[k][c] / 2))
                         yield dict(case, tracks=trs[:i] + [t2] + trs[i + 1:])
 
+    def as_session(self, case):
+        """a single-call case written as a session"""
+        if case["kind"] == "seq":
+            return case
+        mode, dim = case["mode"], case["dim"]
+        pf = lambda p: "float" if p == "inf" else "int"
+        steps = []
+        if case["kind"] == "cmp":
+            p = self.parg(case) if mode == "frechet" else case["p"]
+            steps.append(self.step("c", "t0", "t1", mode, p, pf(p), dim))
+        else:
+            for p in case["ps"]:
+                pa = self.parg(case) if mode == "frechet" else p
+                steps.append(self.step("m", "t0", "t1", mode, pa, pf(pa), dim))
+                steps.append(self.step("m", "t1", "t0", mode, pa, pf(pa), dim))
+                if mode == "dtw":
+                    steps.append(self.step("m", "t0", "t1", "fdtw", p, pf(p), dim))
+        return {"kind": "seq", "tracks": [pts(case["a"]), pts(case["b"])], "pre": ["none", "none"], "steps": steps}
+
+    def warmups(self, case):
+        """for a case that fails in a long run but not alone (state kept by the library between calls): the same calls made
+        first on other tracks of the same sizes (first points kept / everything moved), then on the tracks of the case"""
+        ss = self.as_session(case)
+        nt, ns = len(ss["tracks"]), len(ss["steps"])
+        sh = lambda r: ("t%d" % (int(r[1:]) + nt)) if r[0] == "t" else ("r%d" % (int(r[1:]) + ns))
+        later = [dict(st, a=sh(st["a"]), b=sh(st["b"])) for st in ss["steps"]]
+        for var in ("keep-first", "all", 0, 1, 2):
+            def moved(i, k, c, v, var=var):
+                if (var == "keep-first" and k == 0) or (isinstance(var, int) and c != var):
+                    return v
+                return v + (1 + (k + c) % 2) * (i + 1)      # track i moved by its own amount: the distances change
+            other = [[[moved(i, k, c, v) for c, v in enumerate(q)] for k, q in enumerate(pts(t))] for i, t in enumerate(ss["tracks"])]
+            yield {"kind": "seq", "_warm": True, "tracks": other + [pts(t) for t in ss["tracks"]], "pre": ss["pre"] * 2,
+                   "steps": ss["steps"] + later}
+
     def shrink(self, case):
+        if not case.get("_warm") and case.get("a") != [] and case.get("b") != []:
+            from engine import run_impl
+            if self.spec(case, run_impl(self, case)) is None:
+                # not failing by itself: what fails may depend on what the library remembers from earlier calls
+                yield from self.warmups(case)
+                return
         if case["kind"] == "seq":
             yield from self.shrink_seq(case)
             return
